@@ -294,6 +294,91 @@ func main() {
 				e.Missing("writeSearchInfoCalls", "mustWriteSearchInfo not found")
 			}
 		}
+		// the proxy's public handler: how the documents of an async result are built
+		if gv, err := r.Load("proxyapi/grpc_v1.go"); err != nil {
+			e.Missing("proxyapi/grpc_v1.go", err)
+		} else if fd := gv.Func("", "makeProtoDocs"); fd == nil {
+			e.Missing("makeProtoDocsNilSafe", "makeProtoDocs not found")
+		} else {
+			guarded, bare := 0, 0
+			var walk func(n ast.Node, inGuard bool)
+			walk = func(n ast.Node, inGuard bool) {
+				ast.Inspect(n, func(x ast.Node) bool {
+					switch v := x.(type) {
+					case *ast.IfStmt:
+						g := inGuard || gv.Render(v.Cond) == "docs != nil"
+						walk(v.Body, g)
+						if v.Else != nil {
+							walk(v.Else, inGuard)
+						}
+						return false
+					case *ast.CallExpr:
+						if gv.Render(v.Fun) == "docs.Next" {
+							if inGuard {
+								guarded++
+							} else {
+								bare++
+							}
+						}
+					}
+					return true
+				})
+			}
+			walk(fd.Body, false)
+			if guarded+bare == 0 {
+				e.Missing("makeProtoDocsNilSafe", "no docs.Next() call in makeProtoDocs")
+			} else {
+				e.Bool("makeProtoDocsNilSafe", bare == 0, "makeProtoDocs: every docs.Next() sits under `if docs != nil`")
+			}
+			var loop []string
+			ast.Inspect(fd.Body, func(n ast.Node) bool {
+				if rs, ok := n.(*ast.RangeStmt); ok {
+					loop = append(loop, "for range "+gv.Render(rs.X))
+				}
+				if as, ok := n.(*ast.AssignStmt); ok && len(as.Lhs) == 1 && (gv.Render(as.Lhs[0]) == "doc.Id" || gv.Render(as.Lhs[0]) == "respDocs[i]") {
+					loop = append(loop, gv.Render(as))
+				}
+				return true
+			})
+			e.Strs("makeProtoDocsLoop", loop, "makeProtoDocs: one entry per element of qpr.IDs")
+		}
+		if ga, err := r.Load("proxyapi/grpc_async_search.go"); err != nil {
+			e.Missing("proxyapi/grpc_async_search.go", err)
+		} else if fd := ga.Func("grpcV1", "FetchAsyncSearchResult"); fd == nil {
+			e.Missing("asyncHandlerResponse", "handler not found")
+		} else {
+			var fields, call []string
+			ast.Inspect(fd.Body, func(n ast.Node) bool {
+				switch x := n.(type) {
+				case *ast.CompositeLit:
+					t := ga.Render(x.Type)
+					for _, el := range x.Elts {
+						if kv, ok := el.(*ast.KeyValueExpr); ok {
+							if strings.HasSuffix(t, "ComplexSearchResponse") || strings.HasSuffix(t, "search.FetchAsyncSearchResultRequest") {
+								fields = append(fields, ga.Render(kv.Key)+": "+ga.Render(kv.Value))
+							}
+						}
+					}
+				case *ast.CallExpr:
+					if strings.HasSuffix(ga.Render(x.Fun), "searchIngestor.FetchAsyncSearchResult") {
+						call = append(call, ga.Render(x.Fun))
+					}
+				}
+				return true
+			})
+			e.Strs("asyncHandlerResponse", fields, "grpcV1.FetchAsyncSearchResult: the request passed down and the response literal")
+		}
+		if pa2, err := r.Load("proxy/search/async.go"); err == nil {
+			if fd := pa2.Func("Ingestor", "FetchAsyncSearchResult"); fd != nil {
+				pag := false
+				for _, c := range pa2.Calls(fd.Body) {
+					if c == "si.paginateIDs" {
+						pag = true
+					}
+				}
+				e.Bool("proxyAsyncPaginates", pag, "Ingestor.FetchAsyncSearchResult paginates the merged IDs with (Offset, Size)")
+			}
+		}
 		// key codec
 		if q, err := r.Load("seq/qpr.go"); err != nil {
 			e.Missing("qpr.go", err)
